@@ -313,13 +313,35 @@ func c17Meaning(w *core.W, list []string, layout, v string) {
 	var errA, errB, errC error
 	var exA, exB, exC []byte
 	hasC := false
+	reuse := ""
 	var exErrA, exErrB error
 	rec, site := guard(func() {
 		a := jschema.New("a", v+" // {enum: @e}")
-		errA = a.AddRule("@e", enum.New("e", ruleText))
+		rule := enum.New("e", ruleText)
+		errA = a.AddRule("@e", rule)
 		if errA == nil {
 			errA = a.Check()
 			exA, exErrA = a.Example()
+			// the same rule object serves a second schema, and is asked for its values
+			// before and after: nothing may depend on how often it was used
+			// (for two of the example values)
+			v1, _ := rule.Values()
+			a2 := jschema.New("a2", v+" // {enum: @e}")
+			if v != c17Scalars[0] && v != c17Scalars[len(c17Scalars)-1] {
+				// no reuse check for this value
+			} else if e2 := a2.AddRule("@e", rule); e2 != nil {
+				reuse = "AddRule of the used rule: " + errStr(e2)
+			} else {
+				err2 := a2.Check()
+				ex2, _ := a2.Example()
+				v2, _ := rule.Values()
+				switch {
+				case (err2 == nil) != (errA == nil) || string(ex2) != string(exA):
+					reuse = fmt.Sprintf("first schema: %s / %q; second schema with the same rule object: %s / %q", errStr(errA), exA, errStr(err2), ex2)
+				case fmt.Sprint(v1) != fmt.Sprint(v2):
+					reuse = fmt.Sprintf("Values() after one use %v, after two uses %v", v1, v2)
+				}
+			}
 		}
 		b := jschema.New("b", v+" // {enum: ["+strings.Join(list, ", ")+"]}")
 		errB = b.Check()
@@ -332,6 +354,10 @@ func c17Meaning(w *core.W, list []string, layout, v string) {
 			hasC = true
 		}
 	})
+	if rec == nil && reuse != "" {
+		fail("rule-object-reusable", reuse, nil)
+		return
+	}
 	if rec == nil && hasC && ((errC == nil) != (errB == nil) || (errB == nil && string(exC) != string(exB))) {
 		fail("inline-comments-change-nothing", fmt.Sprintf("inline list without comments: %s / %q; with the comments of this layout: %s / %q", errStr(errB), exB, errStr(errC), exC), map[string]string{"code": fmt.Sprint(errCode(errC))})
 		return
